@@ -93,6 +93,27 @@ CLAIMED = {
         "parse_units' derived-symbol tables (tied by correspondence, exhaustive on the symbol tables, sampled on triples); "
         "binary64 rounding bounded by the property's own 1e-12; the Python harness.",
         "DESIGN.md section 6 / C06"),
+    "C07": (
+        "Coq proof that every event Gillespie's draw can select is legal and keeps the state a vector of non-negative integers, of the selection intervals, propensity positivity and combinatorial factor, and of the waiting-time survival function (Reals) + exact replay of engine runs from the seed (mt19937, generate_canonical, small-mean Poisson modelled in Gallina)",
+        "Theorems (Props/C07.v; closed under the global context except C07_waiting_time, which uses the standard library's real-number "
+        "axioms): for every table, geometry, non-negative integral state and every uniform u1, the event selected by r = u1 a0 against the "
+        "cumulative propensities in scanning order is possible in that state (non-zero constant in the cell's environment and enough "
+        "reactant molecules / a molecule present and a non-zero interface constant), and applying it yields again non-negative integers; "
+        "the values of r selecting a channel are exactly an interval of length its propensity (so its probability is a_j/a0); a selected "
+        "channel has positive propensity; the reaction propensity (volume-scaled constant of C01 x product of x(x-1)...(x-n+1) = "
+        "x!/(x-n)!, 0 if x < n) is positive exactly when enough molecules are present; flagged entries are exempt from the change while "
+        "propensities read them; dt = ln(1/u2)/a0 is positive and exceeds tau iff u2 < exp(-a0 tau). Tied to the code on every run by "
+        "EXACT REPLAY: the engine (compiled from the working tree) records every state and time of Gillespie and tau-leap runs on random "
+        "systems; Coq derives the uniforms from the seed, predicts every event, every waiting time (enclosure of exp around u2) and every "
+        "tau-leap firing count (libstdc++ small-mean Poisson) and compares the resulting states exactly.",
+        "Trusted: Coq kernel + VM; the hand-written models of ReactionProp / DiffusionProp / ComputePropensities / DrawAndApplyEvent / "
+        "Compute_nevt / Apply_nevt and of mt19937, libstdc++ 12's generate_canonical and poisson_distribution (mean < 12), all tied by the "
+        "replay itself (140 runs / ~1800 steps quick; 3000 runs thorough); the fixed-point enclosure of exp(-y) (evaluator, checked "
+        "against 50-digit decimal arithmetic when written, not proved); NOT proved: that libstdc++'s samplers have the distributions the "
+        "C++ standard specifies (tau-leap counts are Poisson(a dt) by the library's contract; what is checked is that the engine hands it "
+        "exactly a dt and applies exactly what it returns); means >= 12 and draws within 1e-9 a0 of a channel boundary stop a replay "
+        "(counted in the evidence); trajectories of 1e4-1e7 events are not replayed (cost), the theorems cover every step.",
+        "DESIGN.md section 6 / C07"),
     "C08": (
         "Coq proof that every partition of the loop into iterate / iterate_n / run slices is observably the plain loop with the same iteration count (any chemical step function, any slice lengths), completion is final, set-up is fresh + bit-exact re-execution correspondence in one process and across processes",
         "Theorems (Props/C08.v, closed under the global context; for an arbitrary state type X and an arbitrary function chem_step : X -> X "
